@@ -15,8 +15,11 @@ TECHNIQUE = ('property-based testing (Hypothesis): model-based comparison of '
              'toolchain)')
 RULE = ('Generated DAGs of 2-9 steps (object files shared between targets, '
         'executables, static/shared libraries with libs, build_steps with 1-3 '
-        'outputs incl. generated sources and always_outdated, copy_file, '
-        'alias, command, default/install/test declarations, sources in a '
+        'outputs incl. generated sources, generated headers passed through '
+        'includes=, a precompiled header given by name, always_outdated, '
+        'copy_file as copy / symlink / hardlink, alias, command, default/'
+        'install/test declarations incl. tests handed to (nested) test '
+        'drivers, sources in a '
         'sub-directory, binaries in bin/) x {make, ninja}; per DAG: fresh '
         'build, no-op rebuild, one build after touching each source, header, '
         'data file and intermediate (<= 10), and each alias/command/tests '
